@@ -154,6 +154,29 @@ WIDENED2 = {
 for _k, _v in WIDENED2.items():
     CHECKS[_k]['text'] = CHECKS[_k]['text'].rstrip() + ' Rounds 4-5 (DESIGN 14): ' + _v
 
+WIDENED3 = {
+ 'C01': 'element values None / 0 / empty at the first and other positions (thread, process, async); worker keyword arguments named like the feeder\'s own variables (q, to_stop, tasks ...).',
+ 'C02': '8 concurrent callers x results of 6 kB - 1 MB on several worker processes / switch members sharing an output pipe.',
+ 'C03': 'callables that let StopIteration escape and StopIteration objects as elements; peek with exc_types given as a list.',
+ 'C04': 'requests whose input, result or exception payload cannot be pickled (5 error classes) or cannot be rebuilt by the receiving process (4 error classes), issued among concurrent ordinary requests on P and T>P layouts.',
+ 'C05': 'source failures outside the Exception hierarchy.',
+ 'C06': 'slot-return scenario: sequential callers with backpressure read the backlog the instant they hold a result, the gather thread delayed after each completion.',
+ 'C07': 'victims whose late outcome is a worker failure (calls and unreached elements of closed streams).',
+ 'C08': 'elements that are exception objects.',
+ 'C10': 'the source fails with a falsy exception object or with a class outside the Exception hierarchy.',
+ 'C11': 'a slow process member of an ensemble still delivering 3 kB - 200 kB results when the context is left.',
+ 'C12': 'records of 9 kB and 300 kB against a parent handler slow enough to keep the log pipe full (records cut by the kill).',
+ 'C13': 'raising hosted calls with proxies as arguments.',
+ 'C14': 'one typeid registered with a factory that yields objects of two classes, met in opposite orders by two processes.',
+ 'C15': 'messages with lone surrogates, NUL, astral characters, line separators.',
+ 'C16': 'the time limit of a request that first waits for room (capacity 1, service 0.6 s, timeout 0.65 s) on both servers.',
+ 'C17': 'per-round events for all parties in the multi-round process cases, delay sites inside the lid-moving section of consumer processes; blocked put / get with an explicit long timeout when the stop is requested; a second early-put known finding (two suppliers).',
+ 'C18': 'payloads / responses that pickle on one side and cannot be rebuilt on the other.',
+ 'C20': 'records with unpicklable extra attributes and exception info; children silent for 6.5 s before they log.',
+}
+for _k, _v in WIDENED3.items():
+    CHECKS[_k]['text'] = CHECKS[_k]['text'].rstrip() + ' Round 6 (DESIGN 14): ' + _v
+
 NOT_YET = {}
 
 ALL = [f'C{i:02d}' for i in range(1, 21)]
